@@ -32,6 +32,7 @@ func histRequests() []reqSpec {
 		{Name: "no-accept-header", Method: "GET", Target: "/api/items/78?q=na", Headers: map[string]string{"X-Key": "good-na"}},
 		{Name: "empty-accept-header", Method: "GET", Target: "/api/list?q=ea", Headers: map[string]string{"X-Key": "good-ea", "Accept": ""}},
 		{Name: "static-unsecured-body", Method: "POST", Target: "/api/plain?q=sb", Headers: map[string]string{"Content-Type": "text/plain", "Accept": "*/*"}, Body: "static body"},
+		{Name: "offer-with-parameter", Method: "GET", Target: "/api/param/5?q=op", Headers: map[string]string{"Accept": "text/plain"}},
 		{Name: "no-security", Method: "PUT", Target: "/api/open/12", Headers: map[string]string{"Content-Type": "text/plain", "Accept": "text/plain"}, Body: "open body"},
 	}
 }
